@@ -199,8 +199,13 @@ def densify_pt(pt):
     paxes, vaxes = list(pt.paxes), list(pt.vaxes)
     shape = [ax_numel(e) for e in vaxes]
     phys = pt.physical
-    out = torch.full(shape, pt.default, dtype=phys.dtype) if phys.dtype != torch.bool \
-        else torch.full(shape, bool(pt.default), dtype=torch.bool)
+    if phys.dtype == torch.bool:
+        out = torch.full(shape, bool(pt.default), dtype=torch.bool)
+    else:
+        try:
+            out = torch.full(shape, pt.default, dtype=phys.dtype)
+        except RuntimeError:      # default not representable in the tensor's dtype: denote what a cast gives
+            out = torch.full(shape, pt.default, dtype=torch.float64).to(phys.dtype)
     psize = [k._numel for k in paxes]
     if any(n == 0 for n in psize) or any(s == 0 for s in shape):
         return out
